@@ -135,6 +135,9 @@ func DecodeStack(ename string) string {
 	lines := strings.Split(ename, "\n")
 	var lastPath string // empty or ends with .
 	for i, line := range lines {
+		if i == 0 {
+			continue // the counter's own name, not a frame
+		}
 		path, rest := cutLastDot(line)
 		if len(path) == 0 {
 			continue // unchanged
